@@ -91,6 +91,7 @@ def run(data):
                 o = _json.loads(_json.dumps({"__measured__": "Dimension", "name": op[2], "symbol": op[3], "exponents": exps}), cls=MeasuredJSONDecoder)
             elif k == "ddefine":
                 o = Dimension.define(op[1], op[2])
+                BLOBS.clear()       # a new fundamental dimension changes the length of every exponent tuple (documented): earlier documents of dimensions do not carry over
             elif k == "danon":
                 a, b = tracked[op[1]], tracked[op[2]]
                 o = a * b if op[3] == "mul" else (a / b if op[3] == "div" else a ** op[4])
